@@ -4,7 +4,7 @@
 // line per request.  The Lean driver (lean/IstioModel/C09/Driver.lean) predicts the same line.
 //
 //	c09 gen    <stream> <seed> <ncases> <ops-out>
-//	c09 exec   <stream> <ops-in> <impl-out>
+//	c09 exec   <stream> <ops-in> <impl-out>        (also writes <impl-out>.verdict: the oracle's verdicts on this very execution)
 //	c09 oracle <stream> <ops-in> <verdict-out>
 //
 // Streams: issue (CreateCertificate end to end), authn (authenticator post-processing).
@@ -14,6 +14,8 @@ import (
 	"fmt"
 	"os"
 	"strconv"
+	"strings"
+	"time"
 
 	_ "verifharness/internal/quiet"
 	"verifharness/internal/wire"
@@ -57,19 +59,38 @@ func main() {
 func execOps(stream, in, outp string) {
 	out := wire.Create(outp)
 	defer out.Close()
+	// the ops are executed once: the output lines go to <impl-out>, the property verdicts of the same execution
+	// (what `oracle` would print) to <impl-out>.verdict
+	verdicts := wire.Create(outp + ".verdict")
+	defer verdicts.Close()
+	verdicts.Line("#ops", in)
 	switch stream {
 	case "issue":
-		s := newIssueSUT()
+		j := newIssueJudge(verdicts)
+		prof := map[string]time.Duration{}
 		for _, f := range wire.ReadLines(in) {
-			out.Line(s.apply(f))
+			t0 := time.Now()
+			out.Line(j.step(f))
 			out.Flush()
+			k := f[0]
+			if k == "ca" || k == "reqa" {
+				k += ":" + strings.SplitN(wire.Dec(f[1]), " ", 2)[0]
+			}
+			prof[k] += time.Since(t0)
+		}
+		j.finish()
+		if os.Getenv("C09_PROF") != "" {
+			for k, d := range prof {
+				fmt.Fprintf(os.Stderr, "prof %-22s %v\n", k, d)
+			}
 		}
 	case "authn":
-		s := newAuthnSUT()
+		j := newAuthnJudge(verdicts)
 		for _, f := range wire.ReadLines(in) {
-			out.Line(s.apply(f))
+			out.Line(j.step(f))
 			out.Flush()
 		}
+		j.finish()
 	default:
 		os.Exit(2)
 	}
